@@ -11,6 +11,8 @@
      "HolderNotConverted"  Await100 -> RecvResponse leaves the WithBody call in the holder   (F5)
      "DespiteNoFraming"    send_body_despite_method without framing header: no body writer  (F6)
      "ReasonCap4"          close-reason list holds 4 entries                                 (F7)
+     "EmptyWriteIgnoredForSized"  write(&[]) never reaches a length-delimited body writer: a content-length: 0 body
+                           cannot be finished (seeded change C09-h; negative control of the body-accounting clause)
    Conventions of the API that the environment respects: try_read_100 only while
    can_keep_await_100(); try_response not called again after it returned the final response. *)
 EXTENDS Flow, Json, TLC
@@ -25,7 +27,9 @@ VARIABLES
   env,       \* environment: arrival class index of the early message, whether the 100 was consumed
   last       \* last event + failed clauses (observation; hidden by VIEW)
 vars == <<a, rq, sv, i, env, last>>
-view == <<a, rq, sv, i, env>>
+\* `last` is hidden from the fingerprint, except for whether the step failed a clause: otherwise a failing step that
+\* leaves the rest of the state unchanged would be merged with its predecessor and never be evaluated by Refines
+view == <<a, rq, sv, i, env, last.fails # {}>>
 
 Rqs ==
   { r \in [method : MethodSet, ver10 : BOOLEAN, expect : BOOLEAN, connclose : BOOLEAN, despite : BOOLEAN, framing : FramingSet] :
@@ -58,7 +62,8 @@ Init ==
   /\ rq \in Rqs
   \* refusals presuppose the handshake; a 100 may also arrive unsolicited (no Expect) and is then an interim response
   /\ sv \in { p \in PreSet : p \notin {"none", "100"} => (rq.expect /\ BodyDue(rq)) }
-  /\ a = InitFlow([method |-> rq.method, ver10 |-> rq.ver10, expect |-> rq.expect, connclose |-> rq.connclose])
+  /\ a = WithFraming(InitFlow([method |-> rq.method, ver10 |-> rq.ver10, expect |-> rq.expect, connclose |-> rq.connclose]),
+                     [framing |-> rq.framing, cln |-> IF rq.framing = "cl0" THEN 0 ELSE IF rq.framing = "cl2" THEN 2 ELSE -1])
   /\ i = InitImpl(rq)
   /\ env = [earr |-> 1, took100 |-> FALSE, finalSeen |-> FALSE, fin |-> NoFin]
   /\ last = [op |-> "init", fails |-> {}]
@@ -159,13 +164,19 @@ AwaitProceed ==
 SBWrite(finish, big) ==
   /\ i.st = "SendBody"
   /\ IF i.holder # "WithBody" \/ i.wmode = "none" THEN PanicStep("body write")
-     ELSE LET i2 == CASE i.wmode = "chunked" ->
+     ELSE LET sized == i.wmode # "chunked"
+              \* the caller offers what is left (big buffer) or one byte (small buffer); an empty write signals the end
+              inl  == IF finish THEN 0 ELSE IF sized THEN (IF big THEN i.wleft ELSE (IF i.wleft > 0 THEN 1 ELSE 0)) ELSE 2
+              outl == IF big THEN 64 ELSE IF finish THEN 3 ELSE IF sized THEN 1 ELSE 6
+              k    == IF sized THEN inl ELSE IF finish THEN 0 ELSE (IF big THEN 2 ELSE 1)
+              i2 == CASE i.wmode = "chunked" ->
                             IF finish /\ big THEN [i EXCEPT !.wended = TRUE] ELSE i
                       [] OTHER ->
-                            LET k == IF finish THEN 0 ELSE IF big THEN i.wleft ELSE (IF i.wleft > 0 THEN 1 ELSE 0)
-                            IN [i EXCEPT !.wleft = @ - k, !.wended = (i.wleft - k) = 0]
-              e  == [op |-> "sb_write", st |-> i.st, finish |-> finish, big |-> big, res |-> "ok", ready |-> i2.wended, fails |-> {}]
-          IN Emit(e, {}, i2, [a EXCEPT !.ready = e.ready])
+                            IF finish /\ "EmptyWriteIgnoredForSized" \in Defects THEN i
+                            ELSE [i EXCEPT !.wleft = @ - k, !.wended = (i.wleft - k) = 0]
+              e  == [op |-> "sb_write", st |-> i.st, finish |-> finish, big |-> big, res |-> "ok", ready |-> i2.wended,
+                     inl |-> inl, outl |-> outl, c |-> k, fails |-> {}]
+          IN Emit(e, SbWriteFails(a, e), i2, [a EXCEPT !.ready = e.ready, !.bleft = BodyLeftAfter(a, e)])
   /\ UNCHANGED <<rq, sv, env>>
 
 SBProceed ==
